@@ -201,6 +201,8 @@ def run(ck):
               key='KEY-residue|fix_ptm|resid-only')
     if not adhoc:
         ck.ob('KEY-residue', mod.loc(fp), True, 'fix_ptm has no ad-hoc grouping by resid alone', key='KEY-residue|fix_ptm|resid-only')
+    from .c13 import link_atom_name_rule
+    link_atom_name_rule(ck, 'PROV-declared-names')
     shared.truthy_zero(ck, [CM])
     shared.runs_every_molecule(ck, 'vermouth/processors/canonicalize_modifications.py', 'CanonicalizeModifications', 'MPT-every-molecule')
     # every group of unexplained atoms reaches the decision "identified -> labelled / not identified -> removed with a warning": nothing returns before, nothing skips a group
